@@ -20,6 +20,11 @@ GROUPS = {
     "winter_swim": ("Poupool.Properties.DecisionsTie.Winter", ["swim_winter_poll"], ["swimWinterPoll"]),
     "swim_timed": ("Poupool.Properties.DecisionsTie.Winter", ["swim_timed_poll"], ["swimTimedPoll"]),
     "cover": ("Poupool.Properties.DecisionsTie.Cover", ["cover_opening_poll", "cover_closing_poll"], ["coverOpeningPoll", "coverClosingPoll"]),
+    "backwash": ("Poupool.Properties.DecisionsTie.Guards", ["start_backwash", "start_backwash_only_when_due", "tank_is_high"], ["startBackwash", "tankIsHigh"]),
+    "force_empty": ("Poupool.Properties.DecisionsTie.Guards", ["tank_force_empty"], ["tankForceEmpty"]),
+    "guards_tank": ("Poupool.Properties.DecisionsTie.Guards", ["tank_is_low", "tank_is_high", "pump_stopped_in_standby"], ["tankIsLow", "tankIsHigh", "pumpStoppedInStandby"]),
+    "guards_swim": ("Poupool.Properties.DecisionsTie.Guards", ["swim_is_wintering", "swim_allow_swim"], ["swimIsWintering", "swimAllowSwim"]),
+    "guards_heating": ("Poupool.Properties.DecisionsTie.Guards", ["heating_allow", "heating_ready"], ["heatingAllow", "heatingReady"]),
     "heating": ("Poupool.Properties.DecisionsTie.Heating", ["heating_waiting_poll", "heating_asks_only_when_due", "heating_heating_poll"], ["heatingWaitingPoll", "heatingHeatingPoll"]),
 }
 
@@ -34,7 +39,9 @@ def tie(chk, groups):
         for fn in fns:
             r = report.get(fn, {"method": fn, "opaque": ["not generated"], "paths": 0})
             chk.obligation(f"D: {r['method']} translated by symbolic execution into Gen.Decisions.{fn} ({r['paths']} paths, no statement outside the decision subset)", not r["opaque"], "; ".join(r["opaque"])[:400])
-        mods.setdefault(module, []).extend(P + t for t in thms)
+        for t in thms:
+            if P + t not in mods.setdefault(module, []):
+                mods[module].append(P + t)
     ok = True
     for module, thms in mods.items():
         ok = lean.check_theorems(chk, module, thms) and ok
